@@ -395,6 +395,70 @@ func clipStr(s string, n int) string {
 	return s
 }
 
+// c05EveryLength: a line string, a multipoint and a polygon ring of exactly idx
+// coordinates, idx = 0, 1, 2, ..., four dimensionalities rotating: written, read by
+// the library's parser and by the independent reader, both equal to the original.
+func c05EveryLength(c *fw.Ctx, idx int) {
+	n := idx
+	layout := gen.StdLayouts[idx%4]
+	stride := layout.Stride()
+	co := func(i int) []float64 {
+		v := make([]float64, stride)
+		for k := range v {
+			v[k] = float64((i*stride+k)%9973) + 0.25
+		}
+		return v
+	}
+	line := make([][]float64, n)
+	for i := range line {
+		line[i] = co(i)
+	}
+	gs := []*model.G{{Kind: model.MultiPoint, Layout: layout, C1: line}}
+	if n != 1 {
+		gs = append(gs, &model.G{Kind: model.LineString, Layout: layout, C1: line})
+	}
+	if n >= 4 {
+		ring := append(append([][]float64{}, line[:n-1]...), append([]float64{}, line[0]...))
+		gs = append(gs, &model.G{Kind: model.Polygon, Layout: layout, C2: [][][]float64{ring}})
+	}
+	for _, g := range gs {
+		c.SetInput(map[string]any{"geometry": fmt.Sprintf("%s %s of exactly %d coordinates, ordinate i = (i mod 9973) + 0.25", g.Kind, layout, n)})
+		t := g.BuildFlat()
+		var text string
+		var err error
+		var back geom.T
+		if c.Guard("panic", func() {
+			text, err = wkt.Marshal(t)
+			if err == nil {
+				back, err = wkt.Unmarshal(text)
+			}
+		}) {
+			return
+		}
+		c.Eval(2)
+		if err != nil {
+			c.Fail("marshal-error", "%s of %d coordinates: Marshal/Unmarshal failed: %v", g.Kind, n, err)
+			return
+		}
+		if !expectGeom(c, fmt.Sprintf("wkt.Unmarshal(Marshal(%s of %d coordinates))", g.Kind, n), back, g, model.Opts{}) {
+			return
+		}
+		rg, rerr := ref.ReadWKT(text)
+		if rerr != nil {
+			c.Fail("reference-rejects", "%s of %d coordinates: the independent reader rejects the text: %v", g.Kind, n, rerr)
+			return
+		}
+		if d := model.Equal(g, rg, model.Opts{}); d != "" {
+			c.Fail("reference-differs", "%s of %d coordinates: the independent reader reads another geometry: %s", g.Kind, n, d)
+			return
+		}
+	}
+	c.Count("lengths_written_and_parsed")
+	if idx%1000 == 0 {
+		c.Distinct(fmt.Sprintf("every-length/%d", idx))
+	}
+}
+
 // c05Deep: the text of a point inside 255 .. 70,000 nested collections (written
 // out directly; the encoder needs minutes for such a value, the parser a fraction of
 // a second) parses to exactly that nesting, in every dimensionality.
@@ -446,6 +510,7 @@ func init() {
 		Assume: []string{"reference WKT reader and speller in harness/ref, pinned by OGC SFA examples (go test ./ref)"},
 		Classes: []fw.Class{
 			{Name: "roundtrip", Quick: 40000, Thorough: 1000000, Run: c05Run},
+			{Name: "every-length", Quick: 3001, Thorough: 20001, Chunk: 40, Run: c05EveryLength, Exhaustive: "multipoint, line string and polygon ring of every number of coordinates from 0 to the class count"},
 			{Name: "deep-texts", Quick: 48, Thorough: 48, Chunk: 2, Run: c05Deep, Exhaustive: "a point inside 255..131,072 nested collections, 12 depths x 4 dimensionalities"},
 		},
 		Require: []string{"with_EMPTY_member", "with_EMPTY_member_before_nonempty", "kind_GeometryCollection", "kind_MultiPolygon", "spelling_mixed-case", "spelling_newline-or-tab", "spelling_bare-multipoint-member", "spelling_parenthesised-multipoint-member", "spelling_detached-suffix", "spelling_attached-suffix", "spelling_exponent"},
